@@ -478,3 +478,59 @@ Theorem replay_refuted :
 Proof.
   exists w_head_state, w_first_commit_changes, w_first_commit_files, [99]. vm_compute. repeat split; reflexivity.
 Qed.
+
+(* ------------------------------------------------------------------ squash / CI rewrite *)
+(* the fact read from the source: a file that is not in final_state is skipped *)
+Lemma merge_skips_absent : gn_merge_skips_absent = true.
+Proof. reflexivity. Qed.
+
+Lemma assoc_str_In {A} (l : list (str * A)) k v : assoc_str l k = Some v -> In (k, v) l.
+Proof.
+  induction l as [|[k' v'] l IH]; cbn [assoc_str]; [discriminate|].
+  destruct (str_eqb k' k) eqn:E.
+  - intro H. injection H as <-. apply str_eqb_eq in E. subst. left; reflexivity.
+  - intro H. right. auto.
+Qed.
+
+Lemma In_committed_files tree ps p lc : In (p, lc) (committed_files tree ps) -> tree p = Some lc.
+Proof.
+  unfold committed_files. rewrite in_flat_map. intros [q [_ H]].
+  destruct (tree q) as [l|] eqn:E; [|contradiction]. destruct H as [H | []]. congruence.
+Qed.
+
+Lemma In_merge_skip mf own primary secondary fs p las :
+  In (p, las) (merge_favoring_first true mf own primary secondary fs) ->
+  exists lc, In (p, lc) fs /\ las = mf p lc.
+Proof.
+  unfold merge_favoring_first. rewrite in_flat_map. intros [q [_ H]].
+  destruct (assoc_str fs q) as [lc|] eqn:E; [|contradiction].
+  destruct H as [H | []]. injection H as -> <-. exists lc. split; auto. apply assoc_str_In; auto.
+Qed.
+
+Lemma build_path path las f : build_file_attestation path las = Some f -> fst f = path.
+Proof.
+  unfold build_file_attestation. destruct (build_entries las); [discriminate|]. intro H. injection H as <-. reflexivity.
+Qed.
+
+Theorem squash_note_ok mf own tree changed target source prompts :
+  (forall p lc, tree p = Some lc ->
+     Forall (fun x => 1 <= la_start x /\ la_start x <= la_end x /\ la_end x <= lc) (mf p lc)) ->
+  (forall p lc, tree p = Some lc -> lc <= u32_max) ->
+  (forall p lc x, In x (mf p lc) -> la_author x <> human -> In (la_author x) prompts) ->
+  forall f, In f (squash_note mf own tree changed target source) -> fatt_ok tree prompts f = true.
+Proof.
+  intros Hmf Hlc Hp f Hin. unfold squash_note in Hin. rewrite merge_skips_absent in Hin.
+  apply to_authorship_log_spec in Hin as [p [las [Hin Hb]]].
+  apply In_merge_skip in Hin as [lc [Hfs ->]]. apply In_committed_files in Hfs.
+  unfold fatt_ok. rewrite (build_path _ _ _ Hb), Hfs.
+  pose proof (build_ranges_ok p (mf p lc) lc prompts (Hmf p lc Hfs) (Hlc p lc Hfs) (fun x => Hp p lc x)) as K.
+  rewrite Hb in K. exact K.
+Qed.
+
+(* without the skip the statement is false: the merge commit has no file x but the note names it *)
+Theorem squash_fallback_refuted :
+  exists f,
+    In f (to_authorship_log (merge_favoring_first false w_sq_mf w_sq_own [] w_sq_source
+                               (committed_files w_sq_tree [[97]; [120]])))
+    /\ fatt_ok w_sq_tree [w_s] f = false.
+Proof. exists ([120], [(w_s, [LRange 3 4])]). vm_compute. split; [right; left; reflexivity | reflexivity]. Qed.
